@@ -36,7 +36,7 @@ PXF = {"": Fraction(1), "px": Fraction(1), "pt": Fraction(4, 3), "pc": Fraction(
 INF_EXACT = {"in": Fraction(1), "cm": Fraction(100, 254), "mm": Fraction(10, 254)}
 INF_LIB = {"in": Fraction(1), "cm": Fraction("0.393701"), "mm": Fraction("0.0393701")}
 OPS = ["+", "-", "/", "<", "<=", "=="]
-MANDATORY_LABELS = {"quick": ["op:%s" % o for o in OPS] + ["value:%s" % (u or "none") for u in UNITS] + ["to:mm", "to:cm", "to:inch"] + ["fontunit:px", "fontunit:pt", "fontunit:pc", "fontunit:none"] + ["relunit:%s" % u for u in ("px", "pt", "pc", "in", "cm", "mm", "em", "ex", "vw", "vh", "vmin", "vmax")]}
+MANDATORY_LABELS = {"quick": ["op:%s" % o for o in OPS] + ["value:%s" % (u or "none") for u in UNITS] + ["to:mm", "to:cm", "to:inch"] + ["fontunit:px", "fontunit:pt", "fontunit:pc", "fontunit:none", "value:extreme-factors"] + ["relunit:%s" % u for u in ("px", "pt", "pc", "in", "cm", "mm", "em", "ex", "vw", "vh", "vmin", "vmax")]}
 MANDATORY_LABELS["thorough"] = MANDATORY_LABELS["quick"]
 
 AMOUNT_PAIRS = [("2", "3"), ("3", "2"), ("1.5", "-4"), ("-2.25", "0.5"), ("10", "10"), ("1e1", ".25"), ("0", "7"), ("5", "0")]
@@ -125,6 +125,17 @@ def decode(d):
     if kind == "value":
         u = d.choice(UNITS + ["%", "%", "%"])
         w, h = gen.loguniform(d, 0.0, 3.0, signed=False), gen.loguniform(d, 0.0, 3.0, signed=False)
+        if d.chance(1, 10):
+            # a very small percentage of a very large reference (or the reverse): the product is ordinary, the factors are not
+            k = d.int(8, 14)
+            small = "%s%s-%d" % (d.choice(["1", "2.5", "1.23456789", "-3"]), d.choice("eE"), k)
+            big = float("%se%d" % (d.choice(["1", "4", "2.5"]), k + d.int(1, 3)))
+            swap = d.bool()
+            return {
+                "kind": "value", "a": (small if not swap else repr(big)) + "%", "ppi": d.choice([72, 96, 100, 254, 300]), "give": True,
+                "rel": big if not swap else float(small), "relkind": d.choice(["number", "string", "length", "unit-string"]), "relunit": d.choice(["px", "", "pt", "pc", "in"]) or "px",
+                "fontunit": None, "fs": 12.0, "fh": 7.0, "vb": "0 0 %r %r" % (w, h), "extreme": True,
+            }
         return {
             "kind": "value", "a": amount_text(d) + u, "ppi": d.choice([72, 96, 100, 254, 300]), "give": d.chance(6, 8),
             "rel": gen.loguniform(d, -1.0, 4.0, signed=False), "relkind": d.choice(["number", "string", "length", "unit-string"]),
@@ -205,6 +216,8 @@ def check_value(case):
     o = core.Obs()
     amount, unit = split(case["a"])
     o.label("value:%s" % (unit or "none"))
+    if case.get("extreme"):
+        o.label("value:extreme-factors")
     give = case["give"]
     vbnums = [Fraction(float(v)) for v in case["vb"].split()]
     ctx = {}
